@@ -38,11 +38,12 @@ Offs(pos, d) == CASE pos = "start"  -> {0}
 (***************************************************************************)
 (* Acceptance of one observation.  out = [raised, cin, cout (coordinates    *)
 (* before / after as bit patterns), lout (after, limbs), data (after;       *)
-(* -999999 encodes a value that is not an integer, e.g. NaN)]               *)
+(* -999999 encodes a value that is not an integer, e.g. NaN), startb, stopb *)
+(* (the interval ends as passed, bit patterns; zeros for width calls)]      *)
 (***************************************************************************)
 Clauses17 == {"Returns", "CoordsKept",
               "CropExactly",
-              "ExtendLatticePoints", "ExtendOldKept", "ExtendNewFill",
+              "ExtendLatticePoints", "ExtendOldKept", "ExtendNewFill", "ExtendOpenEndExcluded",
               "ExactlyWidth", "BlockPlacement"}
 
 \* every sample that carries an original datum still has that datum's original coordinate (the same double)
@@ -59,16 +60,22 @@ HoldsCrop(cl, c, r) ==
 \* candidate extents that explain the observed number of samples
 ExtW(c, r) == {w \in Extents(c.s, c.ms, c.me, c.lc, c.rc) : Len(r.data) = w[2] - w[1] + 1}
 LatIdx(w, t) == w[1] + t - 1                                     \* lattice index of output sample t
+Placed(c, r, w) == \A j \in 0..(c.n - 1) : LET t == j - w[1] + 1 IN t \in 1..Len(r.data) /\ r.data[t] = j + 1
 HoldsExtend(cl, c, r) ==
     LET W == ExtW(c, r)  L == Len(r.data) IN
     CASE cl = "ExtendLatticePoints" ->
               /\ W # {} /\ Len(r.lout) = L
               /\ \E w \in W : \A t \in 1..L : OnLattice(r.lout[t], c.a4, c.s, LatIdx(w, t))
       [] cl = "ExtendOldKept" ->
-              W = {} \/ \E w \in W : \A j \in 0..(c.n - 1) :
-                           LET t == j - w[1] + 1 IN t \in 1..L /\ r.data[t] = j + 1
+              W = {} \/ \E w \in W : Placed(c, r, w)
       [] cl = "ExtendNewFill" ->
               W = {} \/ \E w \in W : \A t \in 1..L : LatIdx(w, t) \notin 0..(c.n - 1) => r.data[t] = c.fill
+      \* The boundary guard is not a licence to return a point AT or BEYOND an open end: the point the guard admits
+      \* must lie strictly inside the requested interval as a double (startb/stopb are the doubles that were passed).
+      [] cl = "ExtendOpenEndExcluded" ->
+              LET Wp == {w \in W : Placed(c, r, w)} IN
+              Wp = {} \/ \E w \in Wp : /\ (w[1] # ExtLo(c.ms, c.lc) => BLt(r.startb, r.cout[1]))
+                                       /\ (w[2] # ExtHi(c.me, c.rc) => BLt(r.cout[L], r.stopb))
       [] OTHER -> TRUE
 
 HoldsWidth(cl, c, r) ==
